@@ -10,6 +10,7 @@ type Writer struct {
 }
 
 func WriterFromFile(filename string) *Writer {
+	verifOpenWrite(filename)
 	file, err := os.OpenFile(filename, os.O_RDWR|os.O_CREATE|os.O_TRUNC, os.FileMode(0666))
 	if err != nil {
 		panic(err)
